@@ -51,6 +51,40 @@ Theorem fresh_entry : forall pc sig rs s,
 Proof. exact fresh_entry_lemma. Qed.
 Print Assumptions fresh_entry.
 
+(* after ANY attempt, from any state with a valid stack and whatever ids/bounds earlier attempts used, the stack
+   starts with exactly the consulted choice points; deeper digits (rest) survive only if the label is unchanged and
+   the old stack was a strict extension of what was consulted (stale digits of an earlier, longer attempt).  Hence
+   as soon as an attempt leaves a stack as long as what it consulted, `exhaustive` applies to every later window of
+   attempts consulting the same choice points: bound/identifier changes between attempts do not disturb it. *)
+Theorem attempt_prefix : forall pc sig rs s,
+  valid (fc_stack s) -> Forall (fun p => 0 < snd p) sig ->
+  let s' := fst (attempt pc sig rs s) in
+  fc_pc s' = pc /\ valid (fc_stack s') /\
+  exists post rest, fc_stack s' = post ++ rest /\ shape post = sig /\
+    (rest <> [] -> fc_pc s = pc /\ exists t, shape t = sig /\ List.length (fc_stack s) = List.length (t ++ rest)).
+Proof. exact attempt_prefix_lemma. Qed.
+Print Assumptions attempt_prefix.
+
+Theorem exhaustive_after_change : forall pc sig rs s a,
+  valid (fc_stack s) -> Forall (fun p => 0 < snd p) sig ->
+  let s' := fst (attempt pc sig rs s) in
+  List.length (fc_stack s') = List.length sig ->
+  let P := N.to_nat (prodsig sig) in
+  let outs := map (fun k => nth_attempt_out pc sig (a + k) s') (seq 0 P) in
+  NoDup outs /\ (forall t, in_box sig t -> In (map Ret t) outs).
+Proof.
+  intros pc sig rs s a Hv Hpos s' Hlen.
+  destruct (attempt_prefix_lemma pc sig rs s Hv Hpos) as (Hpc & Hv' & post & rest & Hst & Hsh & _).
+  fold s' in Hpc, Hv', Hst.
+  assert (rest = []) as Hr.
+  { assert (List.length post = List.length sig) by (rewrite <- Hsh; unfold shape; now rewrite map_length).
+    rewrite Hst, app_length in Hlen. destruct rest; [reflexivity | cbn in Hlen; lia]. }
+  subst rest. rewrite app_nil_r in Hst.
+  assert (shape (fc_stack s') = sig) as Hs' by (rewrite Hst; exact Hsh).
+  rewrite <- Hs'. exact (exhaustive_lemma pc s' a Hpc Hv').
+Qed.
+Print Assumptions exhaustive_after_change.
+
 (* bounded_wait: any given combination of choices is taken within P retries *)
 Theorem bounded_wait : forall pc s a t,
   fc_pc s = pc -> valid (fc_stack s) -> in_box (shape (fc_stack s)) t ->
